@@ -86,7 +86,7 @@ COHORTS = {
 }
 ID_COHORTS = [["c", "a", "b"], ["e", "d", "a"]]
 
-QUICK_MODELS = [("logistic_d2_s1_diag", "loaded"), ("logistic_d2_s1_diag", "fitted"), ("joint_d2_s1_diag", "loaded"),
+QUICK_MODELS = [("logistic_d2_s1_diag", "loaded"), ("logistic_d2_s1_diag", "fitted"), ("joint_d2_s1_diag", "loaded"), ("joint_d2_s1_diag", "fitted"),
                 ("linear_d2_s0_scalar", "loaded"), ("shared_d2_s1_diag", "loaded"), ("logistic_d2_s0_diag", "loaded")]
 FITTED = ["logistic_d2_s1_diag", "logistic_d2_s0_diag", "linear_d2_s1_diag", "shared_d2_s1_diag", "joint_d2_s1_diag",
           "logistic_d3_s2_diag", "linear_d2_s0_scalar"]
@@ -336,7 +336,7 @@ def scratch_state(model, ds, values):
     st = fresh_state(model, ds)
     with st.auto_fork(None):
         for n, v in values.items():
-            st[n] = v.detach().clone().to(torch.float32)
+            st[n] = v.detach().clone()  # dtype kept: a freshly fitted model may compute in float64
     return st
 
 
@@ -354,6 +354,8 @@ def feature_of(case, spec):
         return "integer identifiers"
     if spec["kind"] == "mixture_logistic":
         return "mixture model"
+    if case["source"] == "fitted":
+        return f"freshly fitted {spec['kind']} model"
     return ""
 
 
